@@ -5,6 +5,36 @@ HERE = os.path.dirname(os.path.dirname(os.path.abspath(__file__)))
 
 # id -> (monitor, level, technique, level text, level note, design ref)
 CHECKS = {
+ "C01": ("circmon", "exploration",
+         "runtime monitor: real compiled R1CS solved under honest and dishonest hint tables vs. reference Merkle spec; tiny-field exhaustive sub-runs",
+         "Executes the real compiled constraint systems (gadget harness at many depths/batches and the full circuit) with gnark's solver on PRNG batches aimed at every class of the quantifier, under the honest hint table and dishonest ones (non-boolean/wrong index digits); every verdict is compared with an independent statement of the property, every accept is re-derived by an independent constraint evaluator, and over the 47-element field inputs and all prover-chosen hint outputs are enumerated. Held on the executions produced; exhaustive only at the tiny scope.",
+         "Trusts iden3 Poseidon as reference hash, gnark's solver/compiler, and the structure audit's argument that prover freedom = secret inputs + NBits/InvZero outputs. Depths/batches/hint strategies not run are not covered.",
+         "DESIGN.md §3.1, §C01"),
+ "C02": ("circmon", "exploration",
+         "runtime monitor: real compiled R1CS solved under honest and dishonest hint tables vs. reference Merkle spec; tiny-field exhaustive sub-runs",
+         "As C01 for the deletion circuit: members, every padding flavour (garbage, genuine proofs of live leaves, extremes, all 2^B masks for B<=4), duplicates, already-empty leaves, over-range indices, stale/corrupt paths; dishonest tables forge non-boolean index digits, the skip digit and the is-zero inverse; all 47^3 hint outputs enumerated per input at depth 1 over F47. Held on the executions produced.",
+         "Same trusted base as C01.",
+         "DESIGN.md §3.1, §C02"),
+ "C04": ("circmon", "exploration",
+         "runtime monitor: gadget executed in gnark's test engine and as compiled R1CS, digest compared with x/crypto sha3",
+         "Every byte length 0..409 (all residues mod 136 in 1-4 blocks; 0..817 thorough) plus production lengths, six content kinds, both domains: the reference digest must be accepted and a flipped bit / the other domain's digest rejected. Compiled R1CS at boundary lengths. Held on the messages produced.",
+         "Trusts golang.org/x/crypto/sha3 and gnark's test engine; only byte-aligned messages.",
+         "DESIGN.md §C04"),
+ "C05": ("circmon", "exploration",
+         "runtime monitor: gadget solved as compiled R1CS (and in the test engine) vs. iden3 Poseidon and published vectors",
+         "Poseidon1/Poseidon2 harnesses solved on specials (0,1,2,r-1,r-2,2^k,2^k-1 for all k), all small pairs, sparse/dense and uniform elements, with the reference digest (accept) and reference+1 (reject); a harness calling the gadgets repeatedly on shared operands exposes aliasing. Held on the inputs produced.",
+         "Trusts iden3 go-iden3-crypto Poseidon, anchored to two published circomlib vectors at run time.",
+         "DESIGN.md §C05"),
+ "C06": ("circmon", "exploration",
+         "runtime monitor: gadgets executed over many prime fields (engine) and as compiled R1CS incl. forged decompositions vs. integer comparison",
+         "ReducedModRCheck on directly presented digits: exhaustive over all boolean patterns for small widths over 10 small primes, every bit position of the modulus flipped on 7 curve fields, non-boolean digits at every position; ToReducedBigEndian with honest and forged hints (all 2^8 patterns x 47 values over F47, v+k*p and non-boolean digits on curve fields); FromBinaryBigEndian on values incl. >= order. Held on the assignments produced; exhaustive sub-runs flagged in the evidence.",
+         "Trusts big.Int arithmetic and gnark's engine/solver.",
+         "DESIGN.md §C06"),
+ "C16": ("provmon", "exploration",
+         "runtime monitor: differential round trip against an independent JSON reader/writer",
+         "PRNG parameter sets of every magnitude/shape are encoded by the repository, read back by an independent reader and by the repository's decoder; documents from an independent writer in decimal/0x/0X/padded hex must decode to the same values; one numeric position replaced by a non-number, or an index by an out-of-range value, must make decoding fail. Held on the documents produced.",
+         "Trusts encoding/json and big.Int.SetString in the independent codec; spellings the property does not mention are not asserted.",
+         "DESIGN.md §C16"),
  "C18": ("provmon", "exploration",
          "runtime monitor: reference-model oracle over PRNG update histories",
          "Every Update() of PRNG histories on the real poseidon_tree at every depth 1..32 is compared with an independent sparse reference tree and with from-scratch recomputation from the leaf map; returned paths are folded against previous and new roots. Held on the executions produced; not a proof over all histories.",
